@@ -386,8 +386,8 @@ fn rand_compound(rng: &mut Rng) -> Vec<Simple> {
     let mut v = Vec::new();
     match rng.below(6) {
         0 => v.push(Simple::El(rng.pick(&["p", "div", "li", "ul", "span", "em", "td", "blockquote"]).to_string())),
-        1 => v.push(Simple::Class(rng.pick(&["ca", "cb", "cc"]).to_string())),
-        2 => v.push(Simple::Id(format!("id{}", rng.range(1, 6)))),
+        1 => v.push(Simple::Class(rng.pick(&["ca", "cb", "cc", "Cd", "cd", "cD", "MsoNormal", "msonormal"]).to_string())),
+        2 => v.push(Simple::Id(format!("{}{}", if rng.chance(1, 4) { "Id" } else { "id" }, rng.range(1, 6)))),
         3 => v.push(Simple::Star),
         4 => {
             v.push(Simple::El(rng.pick(&["p", "div", "li", "span"]).to_string()));
@@ -708,7 +708,7 @@ fn print_sheet(rng: &mut Rng, rules: &[Rule], style: usize) -> String {
         if style == 0 {
             String::new()
         } else {
-            match rng.below(9) {
+            match rng.below(13) {
                 0 => " ".into(),
                 1 => "\n  ".into(),
                 2 => "/* c */".into(),
@@ -717,6 +717,9 @@ fn print_sheet(rng: &mut Rng, rules: &[Rule], style: usize) -> String {
                 5 => "/*/ p{color:red} */".into(),
                 6 => "/*** x{} ;; **/".into(),
                 7 => "/*/*/".into(),
+                8 => "\u{c}".into(),
+                9 => "\r\n".into(),
+                10 => "\r".into(),
                 _ => String::new(),
             }
         }
@@ -761,7 +764,12 @@ fn print_sheet(rng: &mut Rng, rules: &[Rule], style: usize) -> String {
         for (k, (p, v, imp)) in r.decls.iter().enumerate() {
             o.push_str(&ws(rng));
             if style > 0 && rng.chance(1, 5) {
-                o.push_str("frobnicate: 12px solid;");
+                o.push_str(*rng.pick(&["frobnicate: 12px solid;", "background-image:url(data:image/png;base64,AAA=);", "x:(a;b);", "grid-area: [a;b] 1 / 2;", "width:calc(1px + (2px * 3));", "font: 12px/1.5 \"a;b}\", serif;", "-webkit-Foo:bar(1; 2px) 50% #Ab;"]));
+                o.push_str(&ws(rng));
+            }
+            if style > 0 && k == 0 && rng.chance(1, 6) {
+                // empty declarations before the first one
+                o.push_str(*rng.pick(&[";", "; ;", ";/**/"]));
                 o.push_str(&ws(rng));
             }
             let pn: String = if style > 0 && rng.chance(1, 3) { p.to_uppercase() } else { p.clone() };
@@ -1110,6 +1118,11 @@ fn gen_c18(tier: &str, rng: &mut Rng) -> Vec<Case> {
             let k = rng.below(marked.len().min(deleted.len()) + 1);
             marked.insert(k, H::El("style".into(), vec![], vec![H::Text(rule)]));
             deleted.insert(k, H::El("style".into(), vec![], vec![H::Text(".nomatch{color:red}".into())]));
+        }
+        // two origins: a user sheet that says the opposite with HIGHER specificity loses to the
+        // document's (author) rule for normal declarations
+        if mode == 0 && cfg.doc_css && rng.chance(1, 2) {
+            cfg.user_css.push("div.hide, p.hide, li.hide, span.hide, td.hide, em.hide, h1.hide, h2.hide, blockquote.hide, ul.hide, ol.hide, table.hide, tr.hide, a.hide, strong.hide, code.hide, dl.hide, dd.hide, dt.hide, h3.hide, h4.hide, h5.hide, h6.hide, pre.hide { display: block; }".into());
         }
         let w = if rng.chance(1, 3) { rng.range(1, 12) } else { rng.range(1, 100) };
         let route = if cfg.deco == 2 { 1 } else { 0 };
